@@ -35,7 +35,7 @@ Definition run (fam : bytes) (c : value) : value :=
 Definition chk (prop fam : bytes) (c o : value) : bool :=
   if beq prop (B "C16") then chk_C16 c o
   else if beq prop (B "C01") then chk_C01 fam c o
-  else if beq prop (B "C02") then (if beq fam (B "sock") then chk_C02 c o else true)
+  else if beq prop (B "C02") then (if beq fam (B "sock") then chk_C02 c o else if beq fam (B "srvi") then (match c with VL [_; inner] => chk_route_multi inner o | _ => true end) else true)
   else if beq prop (B "C03") then (if beq fam (B "sock") then chk_C03 c o else if beq fam (B "tls") then chk_C20 c o else if beq fam (B "tlsraw") then chk_tlsraw c o else if beq fam (B "stream") then chk_stream c o else true)
   else if beq prop (B "C04") then (if beq fam (B "sock") || beq fam (B "srv") then chk_C04 c o else if beq fam (B "tls") then chk_C20 c o else true)
   else if beq prop (B "C05") || beq prop (B "C06") then (if beq fam (B "srv") || beq fam (B "srvd") then chk_route c o else if beq fam (B "srvm") then chk_route_multi c o
